@@ -932,3 +932,146 @@ Proof.
   rewrite (hrun_hc_other k (tag_from (0 + ntags d) sfx)) by (intros ti I; apply H; eapply tag_from_snd; eauto).
   pose proof (proj1 (final_semantics nq nc d W)) as E. unfold denote, tagc in E. now rewrite E.
 Qed.
+
+(* ====================================================================== *)
+(* H. post-conditions and values on [finish] itself, every workflow        *)
+(* ====================================================================== *)
+
+Lemma resets_wf_single nq x : resets_wf nq [x] = reset_wf nq x.
+Proof. unfold resets_wf. simpl. apply andb_true_r. Qed.
+
+Lemma resets_wf_splice_gen (env : benv) nq x : reset_wf nq x = true -> ph_wf nq x = true ->
+  resets_wf nq (splice env x) = true.
+Proof.
+  unfold ph_wf, splice. intros R P.
+  destruct (iop x) as [g0|lb| | | | |b bid l|b h bid l|] eqn:OP; try (now rewrite resets_wf_single).
+  - apply andb_prop in P as [P1 P2]. apply Nat.ltb_lt in P1, P2.
+    destruct bid as [m|]; [|now rewrite resets_wf_single].
+    rewrite resets_wf_app, !resets_wf_ops_on by assumption. reflexivity.
+  - apply Nat.ltb_lt in P. destruct bid as [m|]; [|now rewrite resets_wf_single]. now apply resets_wf_ops_on.
+Qed.
+
+Lemma sub_wf_flat_splice (env : benv) nq l : sub_wf nq l = true -> resets_wf nq (flat_map (splice env) l) = true.
+Proof.
+  unfold sub_wf. intros H. apply andb_prop in H as [R P].
+  induction l as [|x r IH]; [reflexivity|]. simpl in *. apply resets_wf_cons in R as [Rx Rr].
+  apply andb_prop in P as [Px Pr]. rewrite resets_wf_app, resets_wf_splice_gen by assumption. now apply IH.
+Qed.
+
+Lemma set_bid_wf nq m x : reset_wf nq (set_bid m x) = reset_wf nq x /\ ph_wf nq (set_bid m x) = ph_wf nq x.
+Proof. unfold reset_wf, ph_wf, is_reset, set_bid. simpl. destruct (iop x); simpl; split; reflexivity. Qed.
+
+Lemma sub_wf_assign nq c ids ms : sub_wf nq c = true -> sub_wf nq (assign c ids (Some ms)) = true.
+Proof.
+  intros H.
+  assert (R : Forall2 (fun x x' => reset_wf nq x' = reset_wf nq x /\ ph_wf nq x' = ph_wf nq x) c (assign c ids (Some ms))).
+  { unfold assign, assign_gm. apply mapi_rel. intros j x. destruct (chosen (combine ids ms) j); [apply set_bid_wf|split; reflexivity]. }
+  unfold sub_wf, resets_wf in *. induction R as [|x x' l l' [E1 E2] R IH]; [reflexivity|].
+  simpl in *. apply andb_prop in H as [H1 H2]. apply andb_prop in H1 as [A1 A2]. apply andb_prop in H2 as [B1 B2].
+  rewrite E1, E2, A1, B1. simpl. apply IH. now rewrite A2, B2.
+Qed.
+
+Lemma find_obs_creg_app l b r : existsb fst l = false -> find_obs_creg (l ++ (true, b) :: r) = Some b.
+Proof.
+  induction l as [|[[|] bits] l IH]; simpl; intros H; try discriminate; [reflexivity|]. now apply IH.
+Qed.
+
+Lemma amc_data gh gsx qc g idx qc' : append_measurement_circuit gh gsx qc g idx None = Ok qc' ->
+  exists bits, find_obs_creg (mcregs qc) = Some bits /\ mnq qc' = mnq qc /\
+    mdata qc' = mdata qc ++ measurement_suffix gh gsx g idx (seq 0 (length g)) bits.
+Proof.
+  unfold append_measurement_circuit. destruct (negb (Nat.eqb (mnq qc) (length g))); [discriminate|].
+  destruct (find_obs_creg (mcregs qc)) as [bits|]; [|discriminate].
+  destruct (negb (Nat.eqb (length bits) (length (pauli_indices_or_dummy idx)))); [discriminate|].
+  destruct (negb (forallb _ (pauli_indices_or_dummy idx))); [discriminate|].
+  intros E. injection E as <-. exists bits. repeat split.
+Qed.
+
+(* the shape of a returned subexperiment and of the reference, for a valid request *)
+Lemma finish_shape gh gsx (env : benv) qc ids ms g idx out :
+  valid env (mdata qc) ids ms -> ResetFree.finish gh gsx env qc ids ms g idx = Ok out ->
+  let K := mnc qc + length (pauli_indices_or_dummy idx) in
+  let S := measures_from K (flat_map (splice env) (assign (mdata qc) ids (Some ms))) in
+  let sfx := measurement_suffix gh gsx g idx (seq 0 (length g)) (seq (mnc qc) (length (pauli_indices_or_dummy idx))) in
+  out = three_passes (mnq qc) (maybe_remove_final (mnq qc) idx S ++ sfx).
+Proof.
+  intros Hv. unfold ResetFree.finish, pre_pass, append_measurement_register.
+  destruct (existsb fst (mcregs qc)) eqn:EF; [discriminate|]. cbn [res_bind mdata mnc mnq mcregs].
+  rewrite (decompose_splice env (mdata qc) _ ids ms Hv). cbn [res_bind fst snd].
+  match goal with |- res_map _ ?R = _ -> _ => destruct R as [qc3| |] eqn:E3; try discriminate end.
+  simpl. intros E. injection E as <-.
+  apply amc_data in E3 as (bits & Fb & Enq & Ed). cbn [mnq mdata mcregs] in *.
+  rewrite <- app_assoc in Fb. simpl in Fb. rewrite (find_obs_creg_app _ _ _ EF) in Fb. injection Fb as <-.
+  rewrite Enq, Ed. reflexivity.
+Qed.
+
+Lemma reference_shape gh gsx (env : benv) qc ids ms g idx r :
+  valid env (mdata qc) ids ms -> reference gh gsx env qc ids ms g idx = Ok r ->
+  let K := mnc qc + length (pauli_indices_or_dummy idx) in
+  let S := measures_from K (flat_map (splice env) (assign (mdata qc) ids (Some ms))) in
+  let sfx := measurement_suffix gh gsx g idx (seq 0 (length g)) (seq (mnc qc) (length (pauli_indices_or_dummy idx))) in
+  mdata r = S ++ sfx.
+Proof.
+  intros Hv. unfold reference, append_measurement_register.
+  destruct (existsb fst (mcregs qc)) eqn:EF; [discriminate|]. cbn [res_bind mdata mnc mnq mcregs].
+  rewrite (decompose_splice env (mdata qc) _ ids ms Hv). cbn [res_bind fst snd].
+  intros E3. apply amc_data in E3 as (bits & Fb & Enq & Ed). cbn [mnq mdata mcregs] in *.
+  rewrite <- app_assoc in Fb. simpl in Fb. rewrite (find_obs_creg_app _ _ _ EF) in Fb. injection Fb as <-.
+  exact Ed.
+Qed.
+
+(* post-conditions of every returned subexperiment: re-used qubits, user resets, any observables *)
+Theorem finish_postconditions gh gsx (env : benv) qc ids ms g idx out :
+  valid env (mdata qc) ids ms -> sub_wf (mnq qc) (mdata qc) = true ->
+  ResetFree.finish gh gsx env qc ids ms g idx = Ok out ->
+  no_leading_reset out /\ no_trailing_reset out /\ no_double_reset out.
+Proof.
+  intros Hv Hw E. rewrite (finish_shape _ _ _ _ _ _ _ _ _ Hv E).
+  assert (W : resets_wf (mnq qc)
+                (maybe_remove_final (mnq qc) idx
+                   (measures_from (mnc qc + length (pauli_indices_or_dummy idx))
+                      (flat_map (splice env) (assign (mdata qc) ids (Some ms)))) ++
+                 measurement_suffix gh gsx g idx (seq 0 (length g)) (seq (mnc qc) (length (pauli_indices_or_dummy idx)))) = true).
+  { rewrite resets_wf_app. apply andb_true_intro. split.
+    - assert (W0 : resets_wf (mnq qc) (measures_from (mnc qc + length (pauli_indices_or_dummy idx))
+                      (flat_map (splice env) (assign (mdata qc) ids (Some ms)))) = true)
+        by (apply resets_wf_measures, sub_wf_flat_splice, sub_wf_assign, Hw).
+      destruct idx; cbn [maybe_remove_final]; [now apply final_resets_wf|assumption].
+    - apply no_reset_resets_wf. intros y I. unfold measurement_suffix in I. eapply suffix_no_reset; eauto. }
+  split; [|split].
+  - now apply passes_no_leading.
+  - now apply passes_no_trailing.
+  - now apply passes_no_double.
+Qed.
+
+Lemma dummy_suffix_bits gh gsx g locs b y :
+  In y (measurement_suffix gh gsx g [] locs [b]) -> ics y = [] \/ ics y = [b].
+Proof.
+  unfold measurement_suffix. simpl. destruct (nth 0 g 0) as [|[|[|?]]]; simpl; intros I;
+    repeat (destruct I as [<-|I]; [simpl; auto|]); destruct I.
+Qed.
+
+(* values: every classical bit of the returned subexperiment carries the Herbrand term it has in the subexperiment with
+   no reset removed — except, for an identity group, the placeholder bit (bit mnc qc, the only bit of
+   "observable_measurements") *)
+Theorem finish_values gh gsx (env : benv) qc ids ms g idx out r ncl :
+  valid env (mdata qc) ids ms ->
+  ResetFree.finish gh gsx env qc ids ms g idx = Ok out -> reference gh gsx env qc ids ms g idx = Ok r ->
+  wf (mnq qc) ncl (mdata r) = true ->
+  forall k, (idx = [] -> k <> mnc qc) ->
+  nth k (hc (denote (mnq qc) ncl out)) None = nth k (hc (denote (mnq qc) ncl (mdata r))) None.
+Proof.
+  intros Hv E Er W k Hk.
+  rewrite (finish_shape _ _ _ _ _ _ _ _ _ Hv E). rewrite (reference_shape _ _ _ _ _ _ _ _ _ Hv Er) in *.
+  set (S := measures_from _ _) in *. set (sfx := measurement_suffix _ _ _ _ _ _) in *.
+  assert (WS : wf (mnq qc) ncl S = true /\ wf (mnq qc) ncl sfx = true).
+  { unfold wf in *. rewrite forallb_app in W. now apply andb_prop in W. }
+  destruct WS as [WS Wsfx].
+  assert (D : del_resets (S ++ sfx) (maybe_remove_final (mnq qc) idx S ++ sfx)).
+  { apply del_resets_app; [|apply del_resets_refl]. destruct idx; cbn [maybe_remove_final]; [apply final_only_resets|apply del_resets_refl]. }
+  rewrite (passes_values (mnq qc) ncl _ (del_resets_wf _ _ _ _ D W)).
+  destruct idx as [|i idx']; cbn [maybe_remove_final]; [|reflexivity].
+  apply repair_values; [assumption|]. intros y I Q. unfold sfx in I. simpl length in I. simpl seq in I.
+  destruct (dummy_suffix_bits _ _ _ _ _ _ I) as [Ey|Ey]; rewrite Ey in Q; [destruct Q|].
+  destruct Q as [Q|[]]. apply (Hk eq_refl). congruence.
+Qed.
